@@ -334,8 +334,101 @@ fn reduced_alphabet(codec: Codec) -> Vec<char> {
     }
 }
 
+// ---------------------------------------------------------- record fields ----
+
+/// The codecs at work in presentation format: the encoded field of a record in a zone file. Each
+/// record type wraps the codec's converter in code of its own (the NSEC3 salt with its "-" form,
+/// fields that end the record and may be spread over several tokens, the generic RFC 3597 form);
+/// whatever the wrapper, the field is accepted exactly when its text is well-formed, and then it
+/// holds the octets the text encodes.
+fn field_case(c: &mut Ctx, fam: &str, idx: u64, rng: &mut Rng) {
+    // (name, codec, prefix of the RDATA text, suffix, offset of the field in RDATA, length octet in front?, may span tokens)
+    const FIELDS: [(&str, Codec, &str, &str, usize, bool, bool); 11] = [
+        ("DS-digest", Codec::B16, "DS 12345 13 2 ", "", 4, false, true),
+        ("TLSA-data", Codec::B16, "TLSA 3 1 1 ", "", 3, false, true),
+        ("SSHFP-fingerprint", Codec::B16, "SSHFP 4 2 ", "", 2, false, true),
+        ("NSEC3PARAM-salt", Codec::B16, "NSEC3PARAM 1 0 10 ", "", 4, true, false),
+        ("NSEC3-salt", Codec::B16, "NSEC3 1 0 10 ", " 00000000000000000000000000000000 A", 4, true, false),
+        ("generic-rdata", Codec::B16, "TYPE65280 \\# LEN ", "", 0, false, true),
+        ("NSEC3-next-owner", Codec::B32, "NSEC3 1 0 10 - ", " A", 5, true, false),
+        ("DNSKEY-key", Codec::B64, "DNSKEY 256 3 13 ", "", 4, false, true),
+        ("CDNSKEY-key", Codec::B64, "CDNSKEY 257 3 15 ", "", 4, false, true),
+        ("OPENPGPKEY", Codec::B64, "OPENPGPKEY ", "", 0, false, true),
+        ("RRSIG-signature", Codec::B64, "RRSIG A 13 2 300 20300101000000 20200101000000 12345 example. ", "", 18 + 9, false, true),
+    ];
+    let (fname, codec, pre, suf, off, lenoct, multi) = FIELDS[rng.below(FIELDS.len())];
+    // a valid encoding, then perhaps damaged
+    let len = match rng.below(6) { 0 => rng.range(1, 5), 1 => rng.range(17, 40), _ => rng.range(4, 24) };
+    let x = rng.bytes(len);
+    let mut t: Vec<char> = codec.ref_enc(&x).chars().collect();
+    if codec == Codec::B16 && rng.bool() {
+        for ch in t.iter_mut() {
+            if rng.bool() { *ch = ch.to_ascii_lowercase(); }
+        }
+    }
+    let damage = rng.below(8);
+    match damage {
+        0 => { t.pop(); }                                             // one symbol short (odd number of hex digits ...)
+        1 => { let p = rng.below(t.len() + 1); t.insert(p, *rng.pick(&['g', 'W', '!', '_', '=', 'z'])); }
+        2 => { let p = rng.below(t.len()); t[p] = *rng.pick(&['G', 'w', '-', '=', '*']); }
+        3 => { t.push(*rng.pick(&['0', 'A', 'f', '='])); }
+        4 => { t.pop(); t.pop(); t.pop(); }
+        _ => {}
+    }
+    if t.is_empty() {
+        return;
+    }
+    let text: String = t.iter().collect();
+    // spread over tokens where the format allows it
+    let mut shown = String::new();
+    let mut cuts = 0;
+    for (i, ch) in t.iter().enumerate() {
+        if multi && i > 0 && rng.chance(1, 9) {
+            shown.push(' ');
+            cuts += 1;
+        }
+        shown.push(*ch);
+    }
+    let want = codec.ref_dec(&text);
+    let pre = if pre.contains("LEN") {
+        let l = match &want { Dec::Ok(w_) | Dec::Tolerated(w_) => w_.len(), Dec::Bad => text.len() / 2 };
+        pre.replace("LEN", &l.to_string())
+    } else {
+        pre.to_string()
+    };
+    let zone = format!("example. 300 IN {}{}{}\n", pre, shown, suf);
+    let ex = || json!({"field": fname, "zone_text": zone});
+    let Some(r) = c.guard(fam, idx, ex, || crate::p06::read_zonefile(zone.as_bytes(), None, false)) else { return };
+    // what the record holds in the field's place
+    let got: Result<Vec<u8>, String> = r.and_then(|recs| {
+        let rd = recs.first().map(|x_| x_.4.clone()).ok_or_else(|| "no record".to_string())?;
+        if lenoct {
+            let l = *rd.get(off).ok_or_else(|| "short rdata".to_string())? as usize;
+            rd.get(off + 1..off + 1 + l).map(|s_| s_.to_vec()).ok_or_else(|| "short rdata".to_string())
+        } else {
+            rd.get(off..).map(|s_| s_.to_vec()).ok_or_else(|| "short rdata".to_string())
+        }
+    });
+    let got = if fname == "NSEC3-next-owner" {
+        // (the type bitmap follows the hash)
+        got
+    } else {
+        got
+    };
+    // the record types add limits of their own (a salt or hash of at most 255 octets): all texts here stay below them
+    judge(c, fam, idx, codec, &format!("zonefile:{}", fname), &text, &got, &want);
+    c.count(&format!("field_{}", fname), 1);
+    if got.is_ok() {
+        c.count("fields_accepted", 1);
+    } else {
+        c.count("fields_refused", 1);
+    }
+    let wk = match want { Dec::Ok(_) => "wf", Dec::Tolerated(_) => "tol", Dec::Bad => "bad" };
+    c.eval(&("field", fname, wk, got.is_ok(), damage, cuts.min(3), text.len() % 8));
+}
+
 pub fn run(c: &mut Ctx) {
-    c.families(7);
+    c.families(8);
     let mut log = std::fs::File::create(c.logdir.join(format!("b64_{}.jsonl", c.shard))).ok();
 
     // (1) exhaustive: all octet strings of length 0..=2
@@ -443,6 +536,16 @@ pub fn run(c: &mut Ctx) {
         c.count("characters_swept", 1);
     }
 
+    // (3c) the encoded fields of records in a zone file
+    let total = c.total(150_000, 6_000_000);
+    for idx in c.cases("record-fields", total) {
+        if c.out_of_time() {
+            break;
+        }
+        let mut rng = c.case_rng("record-fields", idx);
+        field_case(c, "record-fields", idx, &mut rng);
+    }
+
     // (4) mutated encodings: padding moved, invalid symbols, truncation, case flips
     let total = c.total(400_000, 8_000_000);
     for idx in c.cases("text-mut", total) {
@@ -509,6 +612,8 @@ pub fn run(c: &mut Ctx) {
     c.floor("rejected", 1);
     c.floor("roundtrips", 1);
     c.floor("serde_texts_decoded", 100);
+    c.floor("fields_accepted", 1000);
+    c.floor("fields_refused", 1000);
     c.floor("serde_octets_encoded", 100);
     for codec in CODECS {
         c.floor(&format!("dec_{}_wf", codec.name()), 1);
